@@ -1,7 +1,7 @@
 PROP = dict(
     id='C13', level='exploration',
     pyvc=[],
-    finite=[],
+    finite=['finite.regex:oal_tokens'],
     bounded='bounded.c13',
     bounded_budget=dict(quick=45, thorough=420),
     assumptions=[],
